@@ -291,6 +291,40 @@ def scripted_special_won_then_electorate_change(g):
     g.tags.add("special-won-then-electorate-change")
 
 
+def scripted_withdraw_concluded(g):
+    """a concluded (rejected or approved) proposal is withdrawn by its sponsor while another proposal about the same object
+    is open, i.e. while the object is in an in-progress status that would accept a `reject`: nothing may happen"""
+    r = g.r
+    c = r.choice(["c1", "c2", "c4"])
+    sponsor = r.choice(["adm1", "adm2"])
+    ballot = r.choice(["reject", "reject", "approve"])
+    first = "FreezeAppchain" if ballot == "reject" else r.choice(["FreezeAppchain", "FreezeAppchain"])
+    g.submit(sponsor, f"appchain {first} s:{c} s:reason", "appchain-freeze", "appchain", c)
+    p1 = g.props[-1][0]
+    for v in ["adm0", "adm3", "adm2" if sponsor != "adm2" else "adm1"]:
+        g.ops.append(f"q prop {p1}")
+        g.ops.append(f"q obj role @{v}")
+        g.ops.append(f"block bvm {v} gov Vote s:{p1} s:{ballot} s:r")
+    g.ops.append(f"q prop {p1}")
+    g.ops.append(f"q obj appchain {c}")
+    second = "LogoutAppchain" if ballot == "reject" else "ActivateAppchain"
+    g.submit(f"ca{c[1]}" if second == "LogoutAppchain" else "adm3", f"appchain {second} s:{c} s:reason", "appchain-" + second[:-8].lower(), "appchain", c)
+    p2 = g.props[-1][0]
+    g.ops.append(f"q obj appchain {c}")
+    g.ops.append(f"q prop {p1}")
+    g.ops.append(f"block bvm {sponsor} gov WithdrawProposal s:{p1} s:reason")
+    g.ops.append(f"q prop {p1}")
+    g.ops.append(f"q prop {p2}")
+    g.ops.append(f"q obj appchain {c}")
+    for v in ["adm0", "adm1", "adm2"]:
+        g.ops.append(f"q prop {p2}")
+        g.ops.append(f"q obj role @{v}")
+        g.ops.append(f"block bvm {v} gov Vote s:{p2} s:approve s:r")
+        g.ops.append(f"q prop {p2}")
+        g.ops.append(f"q obj appchain {c}")
+    g.tags.add("withdraw-concluded-scenario:" + ballot)
+
+
 def scripted_priority(g):
     """concurrent proposals on one object with different priorities: a freeze (priority 2) is proposed, then a logout
     (priority 3) of the same object pauses it; the paused proposal is withdrawn / voted on / left alone; the logout is
@@ -362,6 +396,8 @@ def gen_c15(rng, n, tier):
             scripted_logout_of_unavailable_admin(g)
         elif k0 < 0.66:
             scripted_special_won_then_electorate_change(g)
+        elif k0 < 0.74:
+            scripted_withdraw_concluded(g)
         g.propose()
         for _ in range(r.randint(6, 22)):
             k = r.random()
@@ -441,7 +477,17 @@ def mon_c15(h, obs):
                 el = {e.split(":")[0] for e in p["electorate"]}
                 if any(nm not in el for nm in names):
                     hits.append(Hit("C15/ballot-of-non-elector", f"{ref}: ballots {p['voters']} electorate {sorted(el)}", detail=op))
-                if ref not in last:
+                created_now = False
+                if ref not in last and i > 0:
+                    # first sight right after the submitting transaction of the proposal's creator (a reference that is read for
+                    # the first time later — the generator's numbering slips when an earlier submission of that creator was
+                    # refused — says nothing about the moment of creation)
+                    pop, pobs = steps[i - 1]
+                    pw = pop.split()
+                    mm = mon_exec.BLK.match(pobs) if pw and pw[0] == "block" else None
+                    created_now = bool(mm and mm.group(2) and mm.group(2).split()[0].startswith("S:") and len(pw) > 2
+                                       and pw[1] == "bvm" and "@" + pw[2] == ref.rsplit("-", 1)[0] and " | " not in pop)
+                if created_now:
                     # first sight = creation: the electorate is the set of administrators available at that moment
                     bad = sorted(e.split(":")[0] for e in p["electorate"] if role.get(e.split(":")[0]) is not None and role[e.split(":")[0]] not in ROLE_AVAILABLE)
                     miss = sorted(a for a in ADMINS if role.get(a) in ROLE_AVAILABLE and a not in {e.split(":")[0] for e in p["electorate"]})
@@ -478,6 +524,15 @@ def mon_c15(h, obs):
             m2 = re.search(r"status=(\S+) type=(\S+)", o)
             role[ws[3].lstrip("@")] = (m2.group(1) if m2 and m2.group(2) == "governanceAdmin" else "none")
             role_fresh.add(ws[3].lstrip("@"))
+        elif ws[0] == "block" and " gov WithdrawProposal " in op and " | " not in op:
+            m = mon_exec.BLK.match(o)
+            t = op.split()
+            ref = t[5][2:]
+            pre = last.get(ref)
+            rc = m.group(2).split()[0] if m and m.group(2) else ""
+            if pre is not None and pre["status"] in ("approve", "reject") and rc.startswith("S:"):
+                hits.append(Hit("C15/withdraw-of-concluded-proposal-accepted",
+                                f"{ref} was concluded ({pre['status']}) and its withdrawal by {t[2]} succeeded ({rc}): its effect on the governed object is applied once more", detail=op))
         elif ws[0] == "block" and " gov Vote " in op and " | " not in op:
             m = mon_exec.BLK.match(o)
             t = op.split()
